@@ -212,6 +212,18 @@ TABLE = {
         "infinite-variation copula diffusion matrices in a few cases (constructor cost).",
         "6/C04",
     ),
+    "C01": (
+        "exploration",
+        "exhaustive lattice sweep over (model, grid constructor, refinement, sampling method) with complete enumeration of the grid states of each chain, against quadrature of the model's density on reference cells built from the axes alone",
+        "For every chain of the lattice and every state: the cell the library integrates over (observed at the integrate / "
+        "mass calls of every sampler route) equals the reference cell, cells tile the truncated support minus the central "
+        "cell, each state lies in its cell, each rate equals the density integral (1-d) / the reference rectangle mass and, "
+        "for Clayton, the 2-d quadrature of the joint density; rates are non-negative, sum to every reported intensity, and all "
+        "sampler routes agree.",
+        "Lattice points only; the copula chain's diffusion-matrix pool is stubbed during construction (not observed); 3-d "
+        "cells against the reference rectangle mass only.",
+        "6/C01",
+    ),
 }
 
 READY = []  # filled from checks/ below; a module must define PID
